@@ -127,6 +127,7 @@ func (d *Driver) build(msg int, c *sess, fault string) built {
 		f := eatFaults{nonce: fault == "nonce", guid: fault == "ueid-guid", ueidType: fault == "ueid-type", noNonce: fault == "no-nonce-claim"}
 		o := s1opt{nullPayload: fault == "null-payload", flip: fault == "sig-flip"}
 		f.nonceType = fault == "nonce-type"
+		f.nonceEmpty, f.noncePrefix = fault == "nonce-empty", fault == "nonce-prefix"
 		key, guid := d.signer(fault == "signer"), d.dev.Cred.GUID
 		if fault == "other-device" {
 			key, guid = d.otherDevice()
@@ -281,9 +282,12 @@ func (d *Driver) build22(c *sess, fault string) built {
 	}
 	h := alg.HashFunc().New()
 	h.Write(hashed)
-	role := map[string]string{"to1d-signer-stranger": "stranger", "to1d-signer-mfg": "mfg"}[fault]
+	role := map[string]string{"to1d-signer-stranger": "stranger", "to1d-signer-mfg": "mfg", "to1d-signer-former-owner": "owner"}[fault]
 	if role == "" {
 		role = "owner"
+		if d.cfg.OwnerRole != "" {
+			role = d.cfg.OwnerRole
+		}
 	}
 	key := env.Key(d.e.Spec, role)
 	to1d := cose.Sign1[protocol.To1d, []byte]{Payload: cbor.NewByteWrap(protocol.To1d{RV: d.rvTo, To0dHash: protocol.Hash{Algorithm: alg, Value: h.Sum(nil)}})}
@@ -372,7 +376,7 @@ func (d *Driver) build64(c *sess, fault string) built {
 		unprot = nil
 	}
 	var fdoClaim any = []any{xB}
-	f := eatFaults{nonce: fault == "nonce", guid: fault == "ueid"}
+	f := eatFaults{nonce: fault == "nonce", guid: fault == "ueid", nonceEmpty: fault == "nonce-empty", noncePrefix: fault == "nonce-prefix"}
 	if fault == "no-fdo-claim" {
 		fdoClaim = nil
 	}
